@@ -4,6 +4,7 @@ C09 — deblocking equals the Annex J edge filter.  Property theorems only.
 import H263V.Model.Deblock
 import H263V.Spec.AnnexJ
 import H263V.Lemmas.Deblock
+import H263V.Lemmas.DeblockPass
 namespace H263V.Thm.C09
 open H263V H263V.Deblock
 
@@ -40,5 +41,53 @@ theorem filter_range (a b c d s : Int) (ha : U8 a) (hb : U8 b) (hc : U8 c) (hd :
 vector kernel differed from the scalar one, finding D8) -/
 example : processSimd 10 10 0 0 4 = .ok (9, 7, 3, 1) ∧ processScalar 10 10 0 0 4 = .ok (9, 7, 3, 1) := by
   decide
+
+
+/-- every sample is a byte -/
+def Bytes (img : Img) : Prop := ∀ i (h : i < img.size), img[i] < 256
+
+/-- **Image level, all sizes.**  For every width ≥ 1, every image whose length is a multiple of the width (any height, 0 and 1
+rows included), every content and every strength 1..12, `deblock` returns exactly the pointwise Annex J specification: the
+horizontal-edge pass maps the sample at (x, y) to the corresponding output of the edge filter applied to column x at rows
+e−2..e+1 whenever an 8-aligned edge row e ≥ 8 with e+1 inside the image has e−2 ≤ y ≤ e+1, and leaves it alone otherwise; the
+vertical-edge pass does the same along rows on the result.  The in-place loops with their vector-lane / scalar-remainder split
+(columns below ⌊w/8⌋·8 vs. the rest; rows below ⌊h/8⌋·8 vs. the rest) are part of the model. -/
+theorem deblock_eq_spec (img : Img) (w s : Nat) (hw : 1 ≤ w) (hl : img.size % w = 0) (hb : Bytes img) (hs : 1 ≤ s ∧ s ≤ 12) :
+    deblock img w s = .ok (Spec.AnnexJ.deblock img w s) :=
+  Lemmas.DeblockPass.deblock_eq_spec img w s hw hl hb hs
+
+/-- Consequences read off the specification: a sample more than one position away from every block edge, or next to an edge
+whose four samples do not all lie inside the image, comes out of a pass unchanged. -/
+theorem horiz_pass_far_unchanged (img : Img) (w s i : Nat) (hi : i < img.size)
+    (hfar : Spec.AnnexJ.edgeOf (i / w) (img.size / w) = none) :
+    (Spec.AnnexJ.horizPass img w s).getD i 0 = img.getD i 0 := by
+  rw [Lemmas.DeblockPass.horizPass_getD img w s i hi, hfar]
+
+theorem vert_pass_far_unchanged (img : Img) (w s i : Nat) (hi : i < img.size) (hfar : Spec.AnnexJ.edgeOf (i % w) w = none) :
+    (Spec.AnnexJ.vertPass img w s).getD i 0 = img.getD i 0 := by
+  rw [Lemmas.DeblockPass.vertPass_getD img w s i hi, hfar]
+
+/-- which positions have an edge: rows (columns) 8k−2 .. 8k+1 for k ≥ 1 with 8k+1 inside -/
+theorem edgeOf_iff (y n e : Nat) : Spec.AnnexJ.edgeOf y n = some e ↔ (e % 8 = 0 ∧ 8 ≤ e ∧ e ≤ y + 2 ∧ y ≤ e + 1 ∧ e + 2 ≤ n) := by
+  constructor
+  · exact Lemmas.DeblockPass.edgeOf_some y n e
+  · intro ⟨h1, h2, h3, h4, h5⟩
+    unfold Spec.AnnexJ.edgeOf
+    simp only
+    have : (y + 2) / 8 * 8 = e := by omega
+    rw [this, if_pos (by omega)]
+
+/-- the output has the input's length -/
+theorem deblock_length (img : Img) (w s : Nat) : (Spec.AnnexJ.deblock img w s).size = img.size := by
+  simp [Spec.AnnexJ.deblock, Spec.AnnexJ.vertPass, Spec.AnnexJ.horizPass]
+
+/-- non-vacuity: a 10x10 image with a step across its horizontal and vertical edges is filtered, and model and specification agree on it -/
+example : deblock (Array.ofFn (n := 100) fun i => if i.val / 10 < 8 then 10 else 0) 10 4 =
+    .ok (Spec.AnnexJ.deblock (Array.ofFn (n := 100) fun i => if i.val / 10 < 8 then 10 else 0) 10 4) := by
+  apply deblock_eq_spec
+  · omega
+  · simp
+  · intro i hi; simp only [Array.getElem_ofFn]; split <;> omega
+  · omega
 
 end H263V.Thm.C09
